@@ -30,10 +30,30 @@ POOL = [
 ]
 
 
+# fixed interaction programs (run in every tier): a concrete value from one instruction meets a symbolic flag from another, then a
+# conditional or partial-register write; flags consumed by a later instruction; stack round trips; memory written then re-read narrower
+FIXED_PROGRAMS = [
+    ['mov eax, 0x11223344', 'test ebx, ebx', 'setz ah'],
+    ['mov eax, 0x11223344', 'mov edx, 0x55667788', 'test ebx, ebx', 'cmovz ax, dx'],
+    ['mov ecx, 0x80000001', 'cmp ebx, edx', 'setb ch', 'setnb cl'],
+    ['mov eax, 0xffffffff', 'add ebx, ecx', 'adc eax, 0'],
+    ['mov eax, 0x12345678', 'cmp ebx, 5', 'sbb eax, eax'],
+    ['mov edx, 0xa5a5a5a5', 'test ecx, ecx', 'setne dl', 'movzx eax, dl'],
+    ['mov eax, 0x01020304', 'mov ah, bl', 'mov al, bh', 'bswap eax'],
+    ['xor eax, eax', 'cmp ebx, ecx', 'setl al', 'lea edx, [eax+eax*4+7]'],
+    ['mov eax, 0xdeadbeef', 'push eax', 'mov eax, ebx', 'pop ecx', 'xchg eax, ecx'],
+    ['mov DWORD PTR [esi+4], 0x11223344', 'mov BYTE PTR [esi+5], cl', 'mov eax, DWORD PTR [esi+4]', 'mov dx, WORD PTR [esi+5]'],
+    ['mov eax, 0x7fffffff', 'inc eax', 'seto bl', 'cmovo ecx, eax'],
+    ['mov ecx, 0x00ff00ff', 'test edx, edx', 'cmovs cx, dx', 'not ecx'],
+    ['mov eax, 0x10', 'shl eax, 4', 'test ebx, ebx', 'cmove ebx, eax', 'add ebx, eax'],
+    ['mov edx, 0x33445566', 'cmp eax, ebx', 'sete dh', 'setne dl', 'shr edx, 8'],
+]
+
+
 def gen_programs(tier, seed):
     rnd = random.Random(seed)
     n = 30 if tier == 'quick' else 400
-    out = []
+    out = [list(p) for p in FIXED_PROGRAMS]
     for k in range(n):
         ln = rnd.randint(1, 12)
         prog = []
